@@ -93,6 +93,9 @@ pub fn network_and_private_key_to_wif(network: Network, private_key: SigningKey)
 
 pub fn address_to_public_key_hash(address: &str) -> Result<Vec<u8>, ChainGangError> {
     let decoded = decode_base58_checksum(address)?;
+    if decoded.is_empty() {
+        return Err(ChainGangError::BadData("Invalid address length".to_string()));
+    }
     Ok(decoded[1..].to_vec())
 }
 
